@@ -4,6 +4,21 @@ import json, os
 HERE = os.path.dirname(os.path.dirname(os.path.abspath(__file__)))
 
 CLAIMS = {
+    "C10": ("length-shape (LEN) classification of every self._population write per optimizer against a hand-confirmed reference table + exactness rules on the base helpers",
+            "Static, partial by design: base helpers are length-exact (one agent per range element, init asks population_size, trims use "
+            "population_size, one greedy result per incumbent, pool gather keeps every result); for the 69 optimizers that are conserved by "
+            "construction every population write is re-classified SAME/N on each run - a filter, append, pop, slice or shifted bound is a "
+            "violation naming the site. 15 optimizers whose size follows from arithmetic or is variable by design are listed as undecided.",
+            "Arithmetic population sizes (regrouping, n_cut, keep) are out of reach; population_size >= 1.",
+            "DESIGN.md 4/C10"),
+    "C17": ("structural-elitism classifier: dominance analysis of every population write in optimization_step (closures followed) against a hand-confirmed reference table",
+            "Static: for the 60 reference-listed elitist optimizers every write of self._population in the step must provably keep the best "
+            "cost (per-slot greedy with the member as an operand, member-keeping closures, sorted-trimmed supersets, sorted pairwise greedy); "
+            "the greedy comparison's strictness, the trims and the sorted pairing are re-checked because every classification rests on them. "
+            "The checker is the classifier the property's quantifier refers to; 8 arithmetic-elitist optimizers are undecided, 16 are "
+            "structurally non-elitist and outside the property.",
+            "population_size >= 1; NaN costs not decided; C16's ORD results for the helpers.",
+            "DESIGN.md 4/C17"),
     "C06": ("dominance rule on optimize()'s entry guards + validator formulas + typed-flow rule for float|list values + typed sink + abstract evaluation of config-affine denominators over the configuration domain",
             "Static, partial by design: decides that every invalid call (no configuration, bad mode, workers <= 0, weight/objective "
             "mismatch, negative weights) is rejected with ValueError before the first hook, that a float-or-list objective value is "
